@@ -21,17 +21,15 @@ THEOREMS = [
     "Mpc.C18_dec_total_Round3",
     "Mpc.C18_dec_total_GarblerSession",
     "Mpc.C18_dec_total_EvaluatorSession",
+    "Mpc.C18_dec_canonical_Round1",
+    "Mpc.C18_dec_canonical_Round2",
     "Mpc.C18_dec_canonical_Round3",
-    "Mpc.C18_dec_canonical_Round1_at_doc_len",
-    "Mpc.C18_trailing_bytes_accepted_Round1",
-    "Mpc.C18_trailing_bytes_accepted_GarblerSession",
-    "Mpc.C18_trailing_bytes_accepted_EvaluatorSession",
-    "Mpc.C18_inner_trailing_bytes_accepted",
-    "Mpc.C18_short_bit_field_accepted",
-    "Mpc.C18_uvarint_nonminimal_accepted",
-    "Mpc.C18_rounds_no_crash_partial",
-    "Mpc.C18_round4_crash_witness",
-    "Mpc.C18_round3_crash_witness",
+    "Mpc.C18_dec_canonical_GarblerSession",
+    "Mpc.C18_dec_canonical_EvaluatorSession",
+    "Mpc.C18_accepted_has_doc_len",
+    "Mpc.C18_chunk_canonical",
+    "Mpc.C18_rounds_no_crash",
+    "Mpc.C18_offcurve_state_rejected",
     "Mpc.C18_session_mismatch_rejected",
     "Mpc.C18_curve_mismatch_rejected",
     "Mpc.C18_resume_eq",
@@ -45,11 +43,14 @@ THEOREMS = [
 NEED_CODEC = (
     ["dec_%s_%s" % (k, c) for k in ("R1", "R2", "R3", "GS", "ES") for c in ("ok", "err")]
     + ["curve_P-224", "curve_P-256", "curve_P-384", "curve_P-521"]
-    + ["mut_truncate_err", "mut_extend_ok", "mut_extend_err", "mut_bitflip_ok", "mut_bitflip_err", "mut_wrong-sid_ok",
-       "mut_wrong-curve_err", "mut_uvarint-nonminimal_ok", "mut_uvarint-overflow_err", "mut_uvarint-len_err",
-       "mut_inner-truncate_ok", "mut_inner-truncate_err", "mut_splice-p_err", "mut_magic_err", "mut_pristine_ok",
-       "cont_EvaluatorRound2_err", "cont_GarblerRound3_err", "cont_EvaluatorRound4_err", "enc_R1_ok", "enc_R1_err",
-       "enc_GS_ok", "enc_GS_err"])
+    + ["mut_truncate_err", "mut_extend_err", "mut_bitflip_ok", "mut_bitflip_err", "mut_wrong-sid_ok",
+       "mut_wrong-curve_err", "mut_wrong-curve-renamed_err", "mut_uvarint-nonminimal_err", "mut_uvarint-overflow_err",
+       "mut_uvarint-len_err", "mut_inner-truncate_err", "mut_inner-extend_err", "mut_splice-p_err", "mut_magic_err",
+       "mut_pristine_ok", "cont_EvaluatorRound2_err", "cont_GarblerRound3_err", "cont_EvaluatorRound4_err",
+       "enc_R1_ok", "enc_R1_err", "enc_GS_ok", "enc_GS_err"])
+# outcome classes that must NOT occur any more (the five repairs of 0e7671a..217fb4c)
+FORBID_CODEC = ["mut_extend_ok", "mut_uvarint-nonminimal_ok", "mut_inner-truncate_ok", "mut_inner-extend_ok",
+                "cont_EvaluatorRound4_panic", "cont_GarblerRound3_panic", "cont_EvaluatorRound2_panic"]
 NEED_PROTO = (
     ["sessions_P-224", "sessions_P-256", "sessions_P-384", "sessions_P-521"]
     + ["restart_" + n for n in ("msg1", "garbler-session", "msg2", "evaluator-session", "msg3",
@@ -93,6 +94,27 @@ def source_facts(ctx):
              bool(re.search(r"msg\.SessionID\s*!=\s*state\.SessionID", e4)), True)
     ctx.fact("GarblerRound3 sends both labels of every output wire (OutputHints = garbled.Wires[start:]; C04's finding)",
              bool(re.search(r"copy\(outputHints,\s*garbled\.Wires\[start:\]\)", g3)), True)
+    # the repairs the model now assumes (commits 0e7671a, 68f93f2, d9a1171, 2eb87d5, 217fb4c)
+    encsrc = "sha2pc/encoding.go"
+    for fn in ("DecodeRound1", "DecodeGarblerSession", "DecodeEvaluatorSession", "decodeCOSenderSetup",
+               "decodeChoiceBundle"):
+        body = vlib.strip_go_comments(vlib.go_func_body(encsrc, fn + r"\(") or "")
+        ctx.fact("%s rejects input left in the reader (reader.Len() != 0 -> error)" % fn,
+                 bool(re.search(r"if\s+reader\.Len\(\)\s*!=\s*0\s*{\s*return[^\n]*Errorf", body)), True)
+    cb = vlib.strip_go_comments(vlib.go_func_body(encsrc, r"decodeChoiceBundle\(") or "")
+    ctx.fact("decodeChoiceBundle reads the bit field with io.ReadFull",
+             bool(re.search(r"io\.ReadFull\(\s*reader\s*,\s*raw\s*\)", cb)) and not re.search(r"reader\.Read\(raw\)", cb), True)
+    rc = vlib.strip_go_comments(vlib.go_func_body(encsrc, r"readChunk\(") or "")
+    ctx.fact("readChunk compares the consumed prefix length with PutUvarint of the value",
+             bool(re.search(r"before\s*-\s*r\.Len\(\)\s*!=\s*binary\.PutUvarint\(", rc)), True)
+    dco = vlib.strip_go_comments(vlib.go_func_body("ot/co_helpers.go", r"DecryptCOCiphertexts\(") or "")
+    eco = vlib.strip_go_comments(vlib.go_func_body("ot/co_helpers.go", r"EncryptCOCiphertexts\(") or "")
+    ctx.fact("DecryptCOCiphertexts checks ensureOnCurve(bundle.Ax, bundle.Ay) before the first ScalarMult",
+             bool(re.search(r"ensureOnCurve\(curve,\s*bundle\.Ax,\s*bundle\.Ay\)", dco)) and
+             dco.find("ensureOnCurve(") < (dco.find("ScalarMult(") if "ScalarMult(" in dco else 1 << 30), True)
+    ctx.fact("EncryptCOCiphertexts checks ensureOnCurve(setup.AaInvX, setup.AaInvY) before the first Add",
+             bool(re.search(r"ensureOnCurve\(curve,\s*setup\.AaInvX,\s*setup\.AaInvY\)", eco)) and
+             eco.find("setup.AaInvX, setup.AaInvY)") < (eco.find("curve.Add(") if "curve.Add(" in eco else 1 << 30), True)
 
 
 def need(ctx, what, names):
@@ -153,6 +175,10 @@ def run(ctx):
             if job[0] == "circuit":
                 ctx.coverage["embedded_circuit"] = meta.get("circuit")
         need(ctx, "codec", NEED_CODEC)
+        c = ctx.coverage.get("counters", {})
+        seen = [n for n in FORBID_CODEC if c.get(n)] + [n for n in c if n.startswith("accepted_noncanonical_")]
+        ctx.oblige("no accepted non-canonical input, no padded/extended/short message accepted, no round crash",
+                   not seen, "occurred: %s" % seen)
         need(ctx, "proto", NEED_PROTO)
         if ctx.broken and not [f for f in ctx.fails if not ctx.is_known(f)]:
             # widened search for a concrete failing input
@@ -172,8 +198,9 @@ def run(ctx):
         "sessions on 6 input shapes, all 5 single restarts + all-at-once + random subsets, cross-session and "
         "cross-curve feeding. distinct = distinct dec/enc/ceval op lines")
     ctx.assumptions += [
-        "point decompression (elliptic.UnmarshalCompressed) is an abstract function in the theorems; the driver instantiates "
-        "it with y^2 = x^3 - 3x + b over the four NIST primes (constants cross-checked with crypto/elliptic on every run)",
+        "point decompression (elliptic.UnmarshalCompressed) is an abstract function in the theorems (round-2 canonicity "
+        "assumes it returns the requested parity); the driver instantiates it with y^2 = x^3 - 3x + b over the four NIST "
+        "primes (constants cross-checked with crypto/elliptic on every run)",
         "the curve is an abstract commutative group with affine coordinates in the round theorems (crypto/elliptic trusted "
         "to implement one); deriveMask and AES are arbitrary functions",
         "the round functions are tied to the Go code by the oracle runs and by source facts only (not byte-compared: "
@@ -187,13 +214,14 @@ def run(ctx):
     ]
     return ctx.finish(
         "Theorems (Props/C18.lean): decode(encode m) = m with the documented sizes for all five encodings, every curve "
-        "name/width; no decoder crashes on any bytes; round 3 is canonical; Round1/GarblerSession/EvaluatorSession accept "
-        "trailing bytes, EvaluatorSession a short bit field, all length prefixes non-minimal uvarints (negation witnesses, "
-        "known findings); a round run from the bytes of state and message equals the round run from the originals (every "
-        "boundary, either party); foreign session ids and curve names are rejected; decoded states with an off-curve "
-        "point crash rounds 3/4 (witnesses, known findings), no crash otherwise; the evaluator outputs circuit(a,b) "
-        "(composition of C01_decode and C06_co_delivers). Tie: real Encode*/Decode* vs the Lean model on real and mutated "
-        "payloads of P-224/256/384/521, outcome ok(fields, re-encoding)|err|panic compared line by line. Oracle on the real "
-        "code: digest = sha256(a xor b); restart through Encode/Decode at every boundary gives byte-identical downstream "
-        "messages and the same digest; decoders and continued rounds never panic; foreign session/curve rejected; every "
-        "accepted non-canonical input is explained by a listed leniency.")
+        "name/width; no decoder crashes on any bytes; ALL FIVE formats are canonical (decode b = ok m implies m well formed "
+        "and encode m = b: the decoders accept exactly the encoders' image, every accepted input has the documented size, "
+        "length prefixes only in minimal form); rounds 2/3/4 never crash on any state/message, off-curve stored points are "
+        "errors; a round run from the bytes of state and message equals the round run from the originals (every boundary, "
+        "either party); foreign session ids and curve names are rejected; the evaluator outputs circuit(a,b) (composition "
+        "of C01_decode and C06_co_delivers). Tie: real Encode*/Decode* vs the Lean model on real and mutated payloads of "
+        "P-224/256/384/521, outcome ok(fields, re-encoding)|err|panic compared line by line; source facts require the five "
+        "repairs 0e7671a/68f93f2/d9a1171/2eb87d5/217fb4c. Oracle on the real code: digest = sha256(a xor b); restart through "
+        "Encode/Decode at every boundary gives byte-identical downstream messages and the same digest; decoders and "
+        "continued rounds never panic; foreign session/curve rejected; NO accepted input differs from the re-encoding of "
+        "what it decodes to.")
